@@ -643,7 +643,10 @@ class ValuedRooms(Combinator[Tuple[RoomsType, List[T]]]):
         d = data[idx]
         if not isinstance(d, tuple) or len(d) != 2:
             return None
-        rooms, values = list(map(list, zip(*sorted(zip(*d)))))
+        # the decoder numbers rooms by their first cell in row-major order
+        pairs = sorted(zip(*d), key=lambda p: min(p[0]))
+        rooms = [p[0] for p in pairs]
+        values = [p[1] for p in pairs]
 
         combinator = Tupl(self._room_combinator, Seq(self._value_combinator, len(rooms)))
         res = combinator.serialize(env, [([rooms], [values])], 0)
